@@ -40,6 +40,8 @@ type Transition struct {
 	Cfg      schedrun.Config
 	Res      *schedrun.Result
 	Obs      any // what the family's observer collected inside the real session
+	// Stats: counters oracles may bump (vacuity guards); summed into the evidence as x_<name>.
+	Stats map[string]int
 }
 
 type Replay struct {
@@ -79,6 +81,8 @@ type Family struct {
 	MacroEnv bool
 	// OnPath is called for every complete explored state with its path (lasso detection etc.)
 	StateOracle func(scn *Scenario, path []Step, canonPath []string, w *world.World) []engine.Violation
+	// Vacuity inspects the summed oracle counters; a non-empty string aborts the check with exit 2.
+	Vacuity func(extra map[string]int) string
 }
 
 // ScenarioStats is what a worker reports per scenario.
@@ -256,12 +260,16 @@ func (f *Family) Explore(scn *Scenario, tier string, maxStates int) *ScenarioSta
 					st.SampleTrace = append(st.SampleTrace, fmt.Sprintf("%v + cycle[%s] => %s", n.path, j.cfg.Label(), dl))
 				}
 				cfgCopy := j.cfg
-				tr := &Transition{Scenario: scn.Name, Path: n.path, Pre: n.w, Cfg: j.cfg, Res: res, Obs: data}
+				tr := &Transition{Scenario: scn.Name, Path: n.path, Pre: n.w, Cfg: j.cfg, Res: res, Obs: data, Stats: map[string]int{}}
+				defer func() {}()
 				for _, o := range f.Oracles {
 					for _, v := range o(tr) {
 						v.Replay = mkReplay(append(append([]Step{}, n.path...), Step{Kind: "cycle", Cfg: &cfgCopy}), res.Decisions)
 						st.Violations = append(st.Violations, v)
 					}
+				}
+				for k, v := range tr.Stats {
+					st.Extra[k] += v
 				}
 				if res.Panic != "" {
 					continue // the process would have crashed: no successor from a half-finished cycle
@@ -363,7 +371,7 @@ func (f *Family) ReplayPath(r *Replay) (*Transition, error) {
 			if obs != nil {
 				data = obs.Data()
 			}
-			last = &Transition{Scenario: r.Scenario, Path: r.Path[:i], Pre: w, Cfg: *s.Cfg, Res: res, Obs: data}
+			last = &Transition{Scenario: r.Scenario, Path: r.Path[:i], Pre: w, Cfg: *s.Cfg, Res: res, Obs: data, Stats: map[string]int{}}
 			w = res.After
 			if f.MacroEnv {
 				w = w.Clone()
